@@ -208,6 +208,7 @@ func init() {
 	})
 
 	reg("failsM3x2", "3 types, <=2 converters of <=2 inputs with error results, every subset failing (a failing converter reached inside the nested resolution of a multi-input converter)", chainsX(3, 2, true, 2, false))
+	reg("failsMunsat3x2", "as failsM3x2 (converters of <=2 inputs), exactly one failing converter, whose error is a bare *ErrArgumentUnsatisfied (size 9) or wraps one (size 7)", chainsX(3, 2, true, 2, true))
 	reg("failsunsat3x2", "as failsnil3x2, but the failing converter's error wraps an *ErrArgumentUnsatisfied of its own", chainsX(3, 2, true, 1, true))
 	reg("failsnil3x2", "as fails3x2, but a failing converter returns a non-nil error interface holding a nil pointer; at most one failing converter per scenario", chainsX(3, 2, true, 1, true))
 	chains := func(ntypes, maxConvs int, hasErr bool) func(size int, emit func(Scenario)) {
@@ -239,7 +240,7 @@ func chainsX(ntypes, maxConvs int, hasErr bool, errMaxIn int, typedNil bool) fun
 							continue
 						}
 						for _, fails := range []bool{false, true} {
-							convs = append(convs, FuncSpec{In: pick(tl, in), Out: []Label{tl[out]}, InForm: FormPositional, OutForm: FormPositional, HasErr: true, Fails: fails, TypedNil: fails && typedNil && size != 7, UnsatErr: fails && typedNil && size == 7})
+							convs = append(convs, FuncSpec{In: pick(tl, in), Out: []Label{tl[out]}, InForm: FormPositional, OutForm: FormPositional, HasErr: true, Fails: fails, TypedNil: fails && typedNil && size != 7 && size != 9, UnsatErr: fails && typedNil && (size == 7 || size == 9)})
 						}
 					} else {
 						convs = append(convs, FuncSpec{In: pick(tl, in), Out: []Label{tl[out]}, InForm: FormPositional, OutForm: FormPositional})
@@ -283,7 +284,7 @@ func chainsX(ntypes, maxConvs int, hasErr bool, errMaxIn int, typedNil bool) fun
 						if clash {
 							continue
 						}
-						emit(Scenario{Target: t, Inputs: mkInputs(pick(tl, in)), Convs: cl})
+						emit(Scenario{Target: t, Inputs: mkInputs(pick(tl, in)), Convs: cl, BareUnsat: size == 9})
 					}
 				}
 			}
